@@ -277,6 +277,18 @@ def _composite(db, chk, m):
         found = [T.show(got)[:200]]
         calls = T.find(got, lambda s_: s_[0] == "call" and s_[1] in ("F1", "F2", "F3")) if isinstance(got, tuple) else []
         ok = True if got == want else (False if calls or got == to_term(df0) else None)
+    if ok is None and 1 < len(runs) <= 64:
+        # several paths (guards around the members): what each member is APPLIED TO can still be read off every path - a later member handed the caller's frame instead of the running
+        # frame is not the sequential composition (members that select by position among the iterations PRESENT see other iterations)
+        d0 = to_term(df0)
+        later_on_original = []
+        for r_ in runs:
+            t_ = to_term(r_.ret) if r_.ret is not None else None
+            for c_ in (T.find(t_, lambda s_: s_[0] == "call" and s_[1] in ("F2", "F3")) if isinstance(t_, tuple) else []):
+                if len(c_) >= 3 and c_[2] == d0:
+                    later_on_original.append(f"{c_[1]}(df, ...)")
+        if later_on_original:
+            ok, found = False, sorted(set(later_on_original))
     chk.ob("C18.R5-composite", "CompositeFilter applies its members in order to the running frame, passing the symbol table, and returns the last result", ok, m.loc(f), found=found,
            accepted="F3(F2(F1(df, symbol_table), symbol_table), symbol_table)")
     stores = H.attr_store_names(f, "self")
